@@ -286,6 +286,12 @@ func (f *File) AddChild(child Box, boxStartPos uint64) {
 		// The case that a segment starts without an emsg is also handled.
 		f.startSegmentIfNeeded(box, boxStartPos)
 		lastSeg := f.LastSegment()
+		if lastSeg == nil {
+			// No segment start detected at this position (e.g. a tfra entry points at the moof that follows)
+			f.isFragmented = true
+			f.AddMediaSegment(&MediaSegment{StartPos: boxStartPos})
+			lastSeg = f.LastSegment()
+		}
 		if len(lastSeg.Fragments) == 0 {
 			lastSeg.AddFragment(&Fragment{StartPos: boxStartPos})
 		}
@@ -295,7 +301,11 @@ func (f *File) AddChild(child Box, boxStartPos uint64) {
 		f.isFragmented = true
 		moof := box
 		moof.StartPos = boxStartPos
-		f.startSegmentIfNeeded(moof, boxStartPos)
+		// A fragment already started by an emsg box belongs together with this moof, so no new segment here
+		if lastSeg := f.LastSegment(); lastSeg == nil || lastSeg.LastFragment() == nil ||
+			lastSeg.LastFragment().Moof != nil {
+			f.startSegmentIfNeeded(moof, boxStartPos)
+		}
 		currSeg := f.LastSegment()
 		lastFrag := currSeg.LastFragment()
 		if lastFrag == nil || lastFrag.Moof != nil {
